@@ -486,13 +486,16 @@ func RunContent(r *Run, variant string) {
 	if st.simMeta != nil {
 		st.simMeta.Bug = wl.MetaBug
 	}
-	if r.S.Draw(3) == 0 {
+	if r.S.Draw(3) == 0 || wl.TokYield > 0 {
 		// Fine-grained interleaving of concurrent block scans (pooled buffers, batching, handles).
 		simrt.YieldEnabled = func(site string) bool {
-			return strings.HasPrefix(site, "query_") || strings.HasPrefix(site, "file_format") || strings.HasPrefix(site, "codec_pool") || site == "start"
+			return strings.HasPrefix(site, "query_") || strings.HasPrefix(site, "file_format") || strings.HasPrefix(site, "codec_pool") || site == "start" || site == "user.tokenizer"
 		}
 		simrt.SetMode(simrt.ModeFine)
 		r.Probe("content.fine-queries")
+		if wl.TokYield > 0 {
+			r.Probe("content.tokenizer-yields")
+		}
 	}
 	var specs []*SpecRow
 	values := map[string][]int64{}
